@@ -68,7 +68,7 @@ Theorem C15_const_field_roundtrip l kvs v k x : wf_layout l = true ->
   exists off sub, field_of l k = Some (off, sub) /\
     (forall s xv, sub = Leaf s -> x = IVal xv -> const_getitem l v k = Ok (Leaf s) (norm s xv)) /\
     (is_layout sub = true -> exists fv, layout_const sub x = Okz fv /\ const_getitem l v k = Ok sub fv) /\
-    (forall s vw ms m, sub = ELeaf s vw ms -> x = IVal m -> 0 <= m < 2 ^ width s ->
+    (forall s vw ms m, sub = ELeaf s vw ms -> x = IVal m -> in_range s m ->
        const_getitem l v k = Ok sub m).
 Proof.
   intros Hwf Hc Hkd Hin. split; [apply (layout_const_range l _ v Hwf Hc)|].
@@ -191,48 +191,55 @@ Example C15_view_example :
   view_getitem_dyn (Array ex_inner 2) 182 1 = Ok ex_inner 11.
 Proof. vm_compute. repeat split. Qed.
 
-(* FINDING (C15-signed-enum-field): a signed-shaped enumeration with a view class as a layout field.
-   The constant holds the member, the view refuses the field (TypeError) ... *)
-Theorem C15_view_signed_enum_refuted : exists l tv k,
-  wf_layout l = true /\ const_getitem l tv k = Ok (ELeaf (Sh 2 true) true [-1; 1; 0]) 1 /\
-  view_getitem l tv k = Err 4.
-Proof. exists (Struct [(0, ELeaf (Sh 2 true) true [-1; 1; 0])]), 1, 0. vm_compute. repeat split. Qed.
-Print Assumptions C15_view_signed_enum_refuted.
-(* ... and the constant built from a negative member cannot be read back (ValueError) *)
-Theorem C15_const_signed_enum_refuted : exists l kvs v k m,
-  wf_layout l = true /\ layout_const l (IMap kvs) = Okz v /\ keys_disjoint l (map fst kvs) = true /\
-  In (k, IVal m) kvs /\ const_getitem l v k = Err 3.
-Proof.
-  exists (Struct [(0, ELeaf (Sh 2 true) true [-1; 1; 0])]), [(0, IVal (-1))], 3, 0, (-1).
-  vm_compute. repeat split. left; reflexivity.
-Qed.
-Print Assumptions C15_const_signed_enum_refuted.
+(* enumeration fields (Enum with a view class, signed shapes and negative members included): every field of every
+   well-formed layout, every value of the target: the view's field, read in the simulator, is the member whose value
+   is the field's bit slice reinterpreted in the enumeration's shape, exactly as the constant's field; a pattern
+   that is no member's is a ValueError on both sides *)
+Theorem C15_view_enum_is_bit_slice l tv k off s ms : wf_layout l = true -> field_of l k = Some (off, ELeaf s true ms) ->
+  let v := norm s ((tv / 2 ^ off) mod 2 ^ width s) in
+  view_getitem l tv k = const_getitem l tv k /\
+  view_getitem l tv k = (if memz v ms then Ok (ELeaf s true ms) v else Err 3).
+Proof. exact (view_enum_spec l tv k off s ms). Qed.
+Print Assumptions C15_view_enum_is_bit_slice.
+Example C15_view_signed_enum_example :
+  let l := Struct [(0, Leaf (Sh 1 false)); (1, ELeaf (Sh 2 true) true [-1; 1; 0])] in
+  wf_layout l = true /\ layout_const l (IMap [(1, IVal (-1))]) = Okz 6 /\
+  const_getitem l 6 1 = Ok (ELeaf (Sh 2 true) true [-1; 1; 0]) (-1) /\
+  view_getitem l 6 1 = Ok (ELeaf (Sh 2 true) true [-1; 1; 0]) (-1) /\
+  view_getitem l 4 1 = Err 3 /\ const_getitem l 4 1 = Err 3.
+Proof. vm_compute. repeat split. Qed.
+
+(* REPAIRED finding C15-signed-enum-field (fix: lib.data hands ShapeCastable.__call__ / from_bits the field read in
+   the field's shape): the tails of View.__getitem__ / Const.__getitem__ as they were before the repair refused a
+   signed enumeration with a view class (TypeError) and could not read a negative member back (ValueError); the
+   current ones return the member on the same inputs *)
+Theorem C15_signed_enum_before_fix_refuted : exists sub bits m,
+  sub = ELeaf (Sh 2 true) true [-1; 1; 0] /\ field_init layout_const sub (IVal m) = Okz m /\ bits = mask 2 m /\
+  view_field_before_fix sub bits = Err 4 /\ const_field_before_fix sub bits = Err 3 /\
+  view_field sub bits = Ok sub m /\ const_field sub bits = Ok sub m.
+Proof. exists (ELeaf (Sh 2 true) true [-1; 1; 0]), 3, (-1). vm_compute. repeat split. Qed.
+Print Assumptions C15_signed_enum_before_fix_refuted.
 
 (* ---------------------------------------------------------------- shaped enumerations *)
 (* all shapes, all member lists whose values fit the shape, all raw values *)
 Theorem C15_enum_roundtrip s ms : wf_shape s = true -> (forall x, In x ms -> in_range s x) ->
   (forall raw m, enum_from_bits ms raw = Okz m -> m = raw /\ enum_const s ms m = Okz raw) /\
   (forall m, In m ms -> enum_const s ms m = Okz m /\ enum_from_bits ms m = Okz m) /\
-  (forall m v, In m ms -> 0 <= m -> enum_const s ms m = Okz v -> enum_from_bits ms (mask (width s) v) = Okz m).
+  (* the constant's bit pattern, read back in the enumeration's shape (what lib.data hands to from_bits) *)
+  (forall m v, In m ms -> enum_const s ms m = Okz v -> enum_from_bits ms (norm s (mask (width s) v)) = Okz m).
 Proof.
   intros Hs Hr. split; [|split].
   - intros raw m H. apply (enum_from_bits_const s ms raw m Hs Hr H).
   - intros m Hin. apply enum_const_from_bits; auto.
-  - intros m v Hin H0 Hc. apply (enum_pattern_roundtrip s ms m v Hs Hin); auto.
-    specialize (Hr m Hin). unfold in_range in Hr. unfold wf_shape in Hs. destruct (sgn s).
-    + pose proof (pow2_split (width s) ltac:(lia)). pose proof (pow2_pos (width s - 1) ltac:(lia)). lia.
-    + lia.
+  - intros m v Hin Hc. apply (enum_pattern_roundtrip s ms m v Hs Hin); auto.
 Qed.
 Print Assumptions C15_enum_roundtrip.
 Example C15_enum_example : enum_const (Sh 3 false) [0; 2; 5] 5 = Okz 5 /\ enum_from_bits [0; 2; 5] 5 = Okz 5 /\
   enum_from_bits [0; 2; 5] 3 = Errz 3.
 Proof. vm_compute. repeat split. Qed.
-(* negative members: the unsigned bit pattern is not accepted back *)
-Theorem C15_enum_signed_pattern_refuted : exists s ms m v,
-  wf_shape s = true /\ In m ms /\ in_range s m /\ enum_const s ms m = Okz v /\
-  enum_from_bits ms (mask (width s) v) = Errz 3.
-Proof. exists (Sh 2 true), [-1; 1; 0], (-1), (-1). vm_compute. repeat split; try discriminate. left; reflexivity. Qed.
-Print Assumptions C15_enum_signed_pattern_refuted.
+Example C15_enum_signed_example : enum_const (Sh 2 true) [-1; 1; 0] (-1) = Okz (-1) /\
+  enum_from_bits [-1; 1; 0] (norm (Sh 2 true) (mask 2 (-1))) = Okz (-1).
+Proof. vm_compute. repeat split. Qed.
 
 (* ---------------------------------------------------------------- flags *)
 Definition ex_flags := FlagCls 4 [1; 2; 8; 3] STRICT.
